@@ -21,6 +21,23 @@ def tweak(rng, sc):
         for w in (sc["api"], sc["cache"]):
             if w.get("set"):
                 w["set"]["policy"] = "Parallel"
+    if rng.random() < 0.2 and sc["api"].get("set") and sc["cache"].get("set"):
+        # objects of another kind in an unusual state: claims left behind by earlier pods, some of them being deleted (held by
+        # the pvc-protection finalizer) — for the controller an existing claim like any other
+        cl = ["data"]
+        name = sc["api"]["set"]["name"]
+        for w in (sc["api"], sc["cache"]):
+            w["set"]["claims"] = cl
+            for p in w["pods"]:
+                o = monitors.parse_name(p["name"])[1]
+                if o >= 0 and p.get("vols") is not None:
+                    p["vols"] = [{"name": "data", "claim": "data-%s-%d" % (name, o)}] + [v for v in p["vols"] if v["claim"] is None and v["name"] != "data"]
+        allc = ["data-%s-%d" % (name, o) for o in range(0, 9)]
+        have = [c for c in allc if rng.random() < 0.7]
+        term = [c for c in have if rng.random() < 0.4]
+        for w in (sc["api"], sc["cache"]):
+            w["claims"] = list(have)
+            w["claims_term"] = list(term)
     return sc
 
 
